@@ -131,6 +131,11 @@ def gen_num(ctx):
         for d in (-2, -1, 0, 1, 2):
             nums.add(b + d)
     nums.update([0, 1, 9, 10, 99, 255, 12345678901234567890123])
+    # values that become "valid" when truncated to a narrower integer: k * 2^w + small interesting value
+    for w in (8, 16, 31, 32, 33, 40, 62, 63, 64):
+        for k in (1, 2, 3):
+            for sm in (0, 1, 80, 99, 100, 200, 404, 999, 1000, 65535):
+                nums.add(k * 2**w + sm)
     texts = set()
     for v in sorted(nums):
         texts.add(("%d" % v).encode())
@@ -139,9 +144,9 @@ def gen_num(ctx):
         texts.add(("000%d" % v).encode())
     pre = [b"", b" ", b"\t ", b"x", b"\r\n", b"-", b"+"]
     post = [b"", b" ", b" \t", b"x", b";a=b", b" ;", b"\r\n", b"g", b"z", b"Z"]
-    for t in sorted(texts):
-        for p in pre:
-            for q in post:
+    for n_t, t in enumerate(sorted(texts)):
+        for p in (pre if n_t % 4 == 0 else pre[:2]):
+            for q in (post if n_t % 4 == 0 else post[:3]):
                 s = p + t + q
                 h = vf.hexs(s)
                 cases.append("b\tpint\t%s\t10" % h)
